@@ -30,12 +30,14 @@ pub enum RuleSel {
     Pow(u32),
     Periodic(usize), // cycle selector: 0 -> 2, 1 -> 4, 2 -> n
     Rot(usize),      // order selector: 0 -> 2, 1 -> 4, 2 -> n
+    /// two periodic columns of different cycle lengths in one rule: selector 0 -> (2, n), 1 -> (n, 4), 2 -> (4, n/2)
+    Periodic2(usize),
     Same,
     Fib,
     /// every column constant (x' = x): the fully degenerate trace
     AllSame,
 }
-pub const RULES: [RuleSel; 15] = [
+pub const RULES: [RuleSel; 18] = [
     RuleSel::Pow(2),
     RuleSel::Pow(1),
     RuleSel::Pow(3),
@@ -51,6 +53,9 @@ pub const RULES: [RuleSel; 15] = [
     RuleSel::Same,
     RuleSel::Fib,
     RuleSel::AllSame,
+    RuleSel::Periodic2(0),
+    RuleSel::Periodic2(1),
+    RuleSel::Periodic2(2),
 ];
 /// exemption selector: 0 -> 1, 1 -> 2, 2 -> 3, 3 -> n/2, 4 -> n/2+1
 pub const NEXEMPT: usize = 5;
@@ -140,6 +145,14 @@ pub fn statement(p: &Point, seed: u64) -> Option<Statement> {
         RuleSel::Pow(d) => rules[0] = Rule::Pow { d, c: 1 },
         RuleSel::Periodic(s) => rules[0] = Rule::Periodic { cycle: sel3(s, n), c: 3 },
         RuleSel::Rot(s) => rules[0] = Rule::Rot { order: sel3(s, n) },
+        RuleSel::Periodic2(s) => {
+            let (a, b) = [(2, n), (n, 4), (4, (n / 2).max(2))][s];
+            rules[0] = Rule::Periodic2 { cycle_a: a, cycle_b: b };
+            // a second periodic rule on another column when there is room for one
+            if width >= 3 {
+                rules[1] = Rule::Periodic { cycle: 8.min(n), c: 5 };
+            }
+        },
         RuleSel::Same => rules[0] = Rule::Pow { d: 1, c: 0 },
         RuleSel::AllSame => {
             for r in rules.iter_mut() {
